@@ -32,7 +32,13 @@ CONSTANTS
     Sub,        \* the other CA names that may be created
     Res,        \* resource atoms
     TopRes,     \* the atoms Top holds
-    Roa,        \* route authorisations: <<prefix atom, origin>>
+    Roa,        \* route authorisations: <<prefix atom, origin>>; and, in the
+                \* same shape, provider authorisations (ASPA):
+                \* <<customer AS atom, provider-set label>> -- an object for
+                \* either is published iff the CA's current certificate
+                \* holds the first component
+    AspaDefs,   \* the subset of Roa that are provider authorisations; a CA
+                \* has at most one per customer AS (a new one replaces it)
     ParentOf,   \* [Sub -> AllCA]: under which CA a name may be created
     Ops,        \* the kinds of API operations the environment uses
     ShadowRebuilt \* BOOLEAN: a successful repository synchronisation sets
@@ -256,6 +262,22 @@ RoaDelta(c, A, D) ==
     /\ routes' = [routes EXCEPT ![c] = (@ \ D) \cup A]
     /\ tasks' = IF A # {} \/ \E d \in D : Prefix(d) \in Holdings(c)
                 THEN tasks \cup {SR(c)} ELSE tasks
+    /\ UNCHANGED <<pubknown, pst, rst, kst, exists, gone, parent, ent, cstate, iss, sus, rc, rcv, req,
+                   pub>>
+
+\* ca_aspas_definitions_update: add or replace the definition for a customer
+\* AS (refused unless the CA holds the AS); remove it.
+AspaSet(c, x) ==
+    /\ exists[c] /\ x \in AspaDefs /\ x \notin routes[c]
+    /\ x[1] \in Holdings(c)
+    /\ routes' = [routes EXCEPT ![c] = (@ \ {y \in AspaDefs : y[1] = x[1]}) \cup {x}]
+    /\ tasks' = tasks \cup {SR(c)}
+    /\ UNCHANGED <<pubknown, pst, rst, kst, exists, gone, parent, ent, cstate, iss, sus, rc, rcv, req,
+                   pub>>
+AspaDel(c, cust) ==
+    /\ exists[c] /\ \E y \in routes[c] \cap AspaDefs : y[1] = cust
+    /\ routes' = [routes EXCEPT ![c] = @ \ {y \in AspaDefs : y[1] = cust}]
+    /\ tasks' = IF cust \in Holdings(c) THEN tasks \cup {SR(c)} ELSE tasks
     /\ UNCHANGED <<pubknown, pst, rst, kst, exists, gone, parent, ent, cstate, iss, sus, rc, rcv, req,
                    pub>>
 
@@ -639,8 +661,10 @@ ApiNext ==
     \/ "res" \in Ops /\ \E c \in Sub, R \in SUBSET Res : ChildRes(c, R)
     \/ "suspend" \in Ops /\ \E c \in Sub : ChildSuspend(c) \/ ChildUnsuspend(c)
     \/ "remove" \in Ops /\ \E c \in Sub : ChildRemove(c)
-    \/ "roa" \in Ops /\ \E c \in AllCA, r \in Roa : RoaAdd(c, r) \/ RoaDel(c, r)
-    \/ "roadelta" \in Ops /\ \E c \in AllCA, A \in SUBSET Roa, D \in SUBSET Roa : RoaDelta(c, A, D)
+    \/ "roa" \in Ops /\ \E c \in AllCA, r \in Roa \ AspaDefs : RoaAdd(c, r) \/ RoaDel(c, r)
+    \/ "roadelta" \in Ops /\ \E c \in AllCA, A \in SUBSET (Roa \ AspaDefs), D \in SUBSET (Roa \ AspaDefs) :
+            RoaDelta(c, A, D)
+    \/ "aspa" \in Ops /\ \E c \in AllCA, x \in AspaDefs : AspaSet(c, x) \/ AspaDel(c, x[1])
     \/ "roll" \in Ops /\ \E c \in Sub : RollInit(c) \/ RollActivate(c)
     \/ "delete" \in Ops /\ \E c \in Sub : DeleteCa(c)
     \/ "refresh" \in Ops /\ RefreshAll
